@@ -181,6 +181,8 @@ struct Case {
     prelude: u8,
     /// after the gap that follows WATCH, WATCH is sent again naming the watched keys (and one more): Redis keeps the first watch
     rewatch: bool,
+    /// a terminator without a transaction between WATCH and MULTI (1 = EXEC, 2 = DISCARD): an error reply, and the watch stays
+    stray: u8,
 }
 
 fn bop_cmds(kind: &str, key: &str) -> Vec<Argv> {
@@ -272,7 +274,7 @@ fn key_type(k: &str) -> &'static str {
 }
 
 fn case_json(c: &Case) -> Value {
-    json!({"shards": c.shards, "watch": c.watch, "body": c.body, "discard": c.discard, "bop": c.bop, "bkey": c.bkey, "gap": c.gap, "prelude": c.prelude, "rewatch": c.rewatch})
+    json!({"shards": c.shards, "watch": c.watch, "body": c.body, "discard": c.discard, "bop": c.bop, "bkey": c.bkey, "gap": c.gap, "prelude": c.prelude, "rewatch": c.rewatch, "stray": c.stray})
 }
 
 fn case_from(v: &Value) -> Case {
@@ -287,6 +289,7 @@ fn case_from(v: &Value) -> Case {
         gap: v["gap"].as_u64().unwrap_or(0) as usize,
         prelude: v["prelude"].as_u64().unwrap_or(0) as u8,
         rewatch: v["rewatch"].as_bool().unwrap_or(false),
+        stray: v["stray"].as_u64().unwrap_or(0) as u8,
     }
 }
 
@@ -369,6 +372,13 @@ async fn run_case(rep: &mut Report, c: &Case) {
         for k in &c.watch {
             watch_snap.push(snap_key(&bcl, k).await);
         }
+    }
+    if c.stray > 0 && !c.watch.is_empty() {
+        let r = must!(a.cmd(&av(&[if c.stray == 1 { "EXEC" } else { "DISCARD" }])).await, "stray-terminator");
+        if !matches!(r, Tree::Error(_)) {
+            viol!("stray-terminator-not-an-error", format!("{} without MULTI replied {:?}", if c.stray == 1 { "EXEC" } else { "DISCARD" }, r));
+        }
+        rep.count("stray_terminator_cases");
     }
     maybe_b!(); // gap 1: after WATCH
     if c.rewatch && !c.watch.is_empty() {
@@ -547,7 +557,7 @@ pub fn txn_leg(args: &Args) {
                         if idx % args.shards != args.shard {
                             continue;
                         }
-                        let c = Case { shards: if idx % 2 == 0 { 1 } else { 4 }, watch: vec![wk], body: vec![1, 8], discard, bop, bkey: wk, gap, prelude: (idx % 12).saturating_sub(6) as u8, rewatch: idx % 5 == 0 };
+                        let c = Case { shards: if idx % 2 == 0 { 1 } else { 4 }, watch: vec![wk], body: vec![1, 8], discard, bop, bkey: wk, gap, prelude: (idx % 12).saturating_sub(6) as u8, rewatch: idx % 5 == 0, stray: if idx % 7 == 3 { 1 + (idx % 2) as u8 } else { 0 } };
                         run_case(&mut rep, &c).await;
                         rep.count("matrix_cases");
                     }
@@ -571,6 +581,7 @@ pub fn txn_leg(args: &Args) {
                 gap: rng.gen_range(0..nb + 4),
                 prelude: if rng.gen_bool(0.5) { 0 } else { rng.gen_range(1..6) },
                 rewatch: rng.gen_bool(0.25),
+                stray: if rng.gen_bool(0.15) { rng.gen_range(1..3) } else { 0 },
             };
             run_case(&mut rep, &c).await;
             if i < 3 {
